@@ -42,6 +42,12 @@ CLAIMED = {
         "stateful property testing with an explicit reference ledger",
         "DESIGN.md §4 C07",
     ),
+    "C08": (
+        "Model-based stateful property testing of the real whale_lair wired to the real fee distributor and collector (so its claim-first / epoch-is-current preconditions are the real ones): generated histories of bond (with exact, mismatching, wrong-denom, extra and missing funds; whitelisted, non-whitelisted and cw20 assets), unbond, two unbonds in one block, withdraw, time advances on and around the unbonding period (0, 1 ns, period-1, period, period+1, ...), epoch creation and claims by four users; reference model = bonded[user][denom] + multiset of unbonding records. After every step the contract balance per denom equals bonded + pending, TotalBonded equals the sum of users, Bonded/Unbonding/Withdrawable queries equal the model, a withdrawal pays exactly the matured records to the caller only, invalid bonds are rejected, rejected steps leave the world unchanged.",
+        "Block time is owned by the harness. Withdraw's page limit of 30 records is modelled. cw-multi-test as the chain.",
+        "stateful / model-based property testing with time-schedule generation",
+        "DESIGN.md §4 C08",
+    ),
     "C02": (
         "Generated-input search (proptest, 16 deterministic shards) over the whole documented domain [1,2^128)^3 x valid fee triples x decimals, judged against an independent exact 1024-bit reference: gross floor, fee floors, strict bound, totality inside the 128-bit domain, there-and-back with the case's fees and with zero fees, gross monotone in the offer. Exploration, not proof: millions of cases per quick run, hundreds of millions thorough, with boundary constants and extreme-ratio shapes weighted in.",
         "Trusts refmath.rs (bnum integers, self-tested at start-up) and that commands::swap / queries::query_simulation call the hooked compute_swap (cross-checked by C14). A panic is an abort.",
